@@ -18,3 +18,17 @@ check("C09", "model_checking",
 check("C10", "model_checking",
       "Model: TLC checks RoundWellFormed/StablePathLength/NothingAnswered (the output contract of publish_trace) on Tracer.tla. Implementation: Hop-table clauses (gap-free range, own TTLs, target hop, true distance on stable paths, empty when nothing answered) evaluated by TLC on the snapshot after every round of real executions.",
       TRUSTED, "TLC model checking of spec/Tracer.tla + TLC trace validation: C10_Shape/Target/Distance/Nothing", "7 C10")
+
+check("C05", "model_checking",
+      "Model: TLC checks that the incremental aggregation (HopStats!Apply, shaped like StateUpdater) equals the declarative re-aggregation (HopStats!Agg) and satisfies the conservation laws for every sequence of rounds within bounds. Implementation: every round fed to the real State (synthetic rounds and rounds published by the real strategy over the simulated network) is applied to the specification by TLC and every getter of every hop of every snapshot is compared exactly (integers) or by cross-multiplied rationals (avg, javg, loss %, stddev).",
+      TRUSTED + " Not decided: jinta (only finite / non-negative) and bit-exact floating point.",
+      "TLC model checking of spec/HopStats.tla (Apply = Agg) + TLC trace validation with spec/mon/MonState.tla (C05_Exact/Derived/StdDev/Laws)", "7 C05")
+check("C07", "model_checking",
+      "Model: TLC explores the sequence allocator (SeqAlloc.tla, same operators as the full model) at the REAL constants 65535/512 from every reachable round-start sequence for boundary initial sequences and both maximum-sequence regimes. Implementation: TLC-generated walks (MC_SeqGen, -simulate) and random walks are replayed into the real private TracerState through the hook wrapper and the log of every call is validated by TLC; TCP collision storms through the simulated socket must end in a capacity error.",
+      TRUSTED, "TLC model checking of spec/SeqAlloc.tla at real constants + replay of TLC-generated behaviours + TLC trace validation (spec/mon/MonSeq.tla, C07_* clauses of MonLoop)", "7 C07")
+check("C15", "model_checking",
+      "Model: TLC checks dense ids, bound, agreement and monotone extension of the flow registry (Flows.tla: Check/Merge/Register/Attribute transcribed) for every sequence of registrations within bounds. Implementation: TLC mirrors the registry and the per-flow statistics from the rounds fed to the real State and compares them after every round.",
+      TRUSTED, "TLC model checking of spec/Flows.tla + TLC trace validation with spec/mon/MonState.tla (C15_* clauses)", "7 C15")
+check("C19", "model_checking",
+      "Model: TLC proves the implementation's per-round NAT fold equal to the declarative statement of the property for all paths of 6 hops with up to 3 rewriting devices and all sets of responding hops. Implementation: real IPv4/UDP/Dublin traces over simulated paths with rewriting devices and silent hops (and other configurations, which must report not-applicable); statuses are compared by TLC with simulator ground truth.",
+      TRUSTED, "TLC model checking of spec/Nat.tla + TLC trace validation with spec/mon/MonState.tla (C19_Status/Truth/Model)", "7 C19")
